@@ -566,6 +566,18 @@ fn long_runs(ctx: &Ctx, rep: &mut Report, props: &[&'static str], with_polls: bo
     if with_polls {
         cycles.push(vec![MOp::Off(1), MOp::On(61, 80), MOp::PollR, MOp::Off(61), MOp::PollF, MOp::PollR]);
         cycles.push(vec![MOp::Off(1), MOp::On(61, 80), MOp::On(62, 80), MOp::PollR, MOp::On(63, 3), MOp::Off(62), MOp::PollR, MOp::Off(61), MOp::Off(63), MOp::PollF]);
+        // exactly 256 (and 255, 257) note-ons in retrigger mode between two reads of the rising edge, gate high throughout
+        for k in [255usize, 256, 257] {
+            let mut c = vec![MOp::Off(1), MOp::Retrig(true)];
+            for _ in 0..k {
+                c.push(MOp::On(61, 80));
+                c.push(MOp::Off(61));
+            }
+            c.push(MOp::PollR);
+            c.push(MOp::PollR);
+            c.push(MOp::PollF);
+            cycles.push(c);
+        }
     } else {
         cycles.push(vec![MOp::Off(1), MOp::On(61, 80), MOp::Off(61)]);
         cycles.push(vec![MOp::Off(1), MOp::On(61, 80), MOp::On(62, 80), MOp::On(63, 3), MOp::Off(62), MOp::Off(61), MOp::Off(63)]);
@@ -583,7 +595,8 @@ fn long_runs(ctx: &Ctx, rep: &mut Report, props: &[&'static str], with_polls: bo
                 let mut out = StepOut::new();
                 m.apply(op, &mut out);
             }
-            'run: for n in 0..66_000u64 {
+            let reps: u64 = if cyc.len() > 100 { 260 } else { 66_000 };
+            'run: for n in 0..reps {
                 for op in cyc {
                     let mut out = StepOut::new();
                     let r = std::panic::catch_unwind(std::panic::AssertUnwindSafe(|| m.apply(op, &mut out)));
